@@ -92,6 +92,9 @@ func main() {
 	noNative := flag.Bool("no-native", false, "skip native replay/validation (debugging only; never registered)")
 	replayFile := flag.String("replay", "", "replay a recorded counterexample natively and exit")
 	verbose := flag.Bool("v", false, "verbose")
+	dbgMaxPaths := flag.Int("max-paths", 0, "debugging: override max_paths")
+	dbgBounds := flag.String("bounds", "", "debugging: override bounds, k=v,k=v")
+	dbgDump := flag.Int("dump-paths", 0, "debugging: print the inputs of the first N finished paths")
 	flag.Parse()
 	if v := os.Getenv("VERIF_DIR"); v != "" {
 		verifDir = v
@@ -208,6 +211,23 @@ func main() {
 		for _, p := range pc.NoInitOK {
 			cfg.NoInitOK[p] = true
 		}
+		if *dbgMaxPaths > 0 {
+			cfg.MaxPaths = *dbgMaxPaths
+		}
+		if *dbgBounds != "" {
+			nb := map[string]int{}
+			for k, v := range cfg.Bounds {
+				nb[k] = v
+			}
+			for _, kv := range strings.Split(*dbgBounds, ",") {
+				if k, v, ok := strings.Cut(kv, "="); ok {
+					n, _ := strconv.Atoi(v)
+					nb[k] = n
+				}
+			}
+			cfg.Bounds = nb
+		}
+		cfg.Samples = max(cfg.Samples, *dbgDump)
 		for target, repl := range h.Overrides {
 			rf := sp.Func(repl)
 			if rf == nil {
@@ -219,6 +239,16 @@ func main() {
 		th := time.Now()
 		if err := ex.Run(); err != nil {
 			fatal(2, "harness %s: %v", h.Name, err)
+		}
+		for i, smp := range ex.Samples {
+			if i >= *dbgDump {
+				break
+			}
+			var parts []string
+			for _, in := range smp.Inputs {
+				parts = append(parts, in.Name+"="+in.Val)
+			}
+			fmt.Fprintf(os.Stderr, "PATH %v decisions=%d\n", parts, len(smp.Trace))
 		}
 		r := &hres{cfg: h, tc: tc, ex: ex, wall: time.Since(th).Seconds()}
 		results = append(results, r)
